@@ -19,6 +19,7 @@ func checkC07(p *Prog, r *Report) {
 	r.rule("R11 splice loops: " + "after X = append(X[:a], X[b:]...) inside a loop over the removed index, the loop must leave, count downwards, or continue at an index <= a (so the element that moved down is examined)")
 	r.rule("R8b prefix pruning: strings.HasPrefix between two items of a list whose items are later split on a delimiter must test the shorter item followed by that delimiter")
 	r.rule("R4 error discipline and (value, nil) / (nothing, error) returns for NewURLFromRaw, NewURL, NewParams")
+	r.rule("C07.fields-default: every write to params.Fields outside the defaulting loop (which replaces an empty selection by all fields of the type) is followed by that loop on every path to the successful return")
 	r.rule("C07.sort-name-tests: in the loop over the caller's sorting rules the comparison with \"id\" and the comparisons with the attribute names are applied to one and the same value (the rule stripped of its dash), so every valid rule is kept")
 	r.rule("C07.member-append: in NewParams every string appended to a result list is a constant, or is guarded by an equality with \"id\", with an attribute name of the schema type, or with an element of Type.Fields(), or comes from a list built that way")
 	r.rule("C07.include-chain: wherever the type for the next word of an inclusion path is looked up from <rel>.ToType, the same loop stores into <rel> the relationship found in the current type's Rels map, on a path back to that lookup (the walk advances along the chain of relationships)")
@@ -70,6 +71,7 @@ func checkC07(p *Prog, r *Report) {
 	checkIncludeChain(p, r, np)
 	checkMemberAppends(p, r, np)
 	checkSortNameTests(p, r, np)
+	checkFieldsDefault(p, r, "C07")
 	checkIDTotal(p, r, np)
 	checkURLTypeExists(p, r)
 }
@@ -809,7 +811,9 @@ func checkIncludeChain(p *Prog, r *Report, f *ssa.Function) {
 			if !ok || st.Addr != ssa.Value(v) || !lookupOfRels(st.Val) {
 				continue
 			}
-			if blockReaches(st.Block(), c.Block(), true) && blockReaches(c.Block(), st.Block(), true) {
+			// the lookup is repeated in the very loop that advances the variable
+			// (the innermost loop around the store), not once per path outside it
+			if in := innermostLoop(st.Block()); in != nil && in[c.Block()] {
 				good = true
 			}
 		}
@@ -818,4 +822,98 @@ func checkIncludeChain(p *Prog, r *Report, f *ssa.Function) {
 			"the type for the next word of an inclusion path is taken from a relationship variable that the loop never updates with the relationship it just found: every word is resolved against the same type, so valid nested paths are rejected and invalid ones accepted")
 	})
 	r.floor("chain lookups GetType(rel.ToType) in loops", n, 2)
+}
+
+// innermostLoop: the smallest natural loop of the function that contains b.
+func innermostLoop(b *ssa.BasicBlock) map[*ssa.BasicBlock]bool {
+	var best map[*ssa.BasicBlock]bool
+	for _, h := range b.Parent().Blocks {
+		l := naturalLoop(h)
+		if l == nil || !l[b] {
+			continue
+		}
+		if best == nil || len(l) < len(best) {
+			best = l
+		}
+	}
+	return best
+}
+
+// checkFieldsDefault: NewParams replaces every empty field selection by all
+// the fields of the type in one loop over params.Fields; every other write to
+// params.Fields (the entry created for the resource type, for included types
+// and for the caller's fields[...] parameters, each of which can be or stay
+// empty) must come before that loop on every path to the successful return,
+// otherwise an empty selection survives (shared by C07 and C08).
+func checkFieldsDefault(p *Prog, r *Report, prefix string) {
+	f := p.Fn("NewParams")
+	if f == nil {
+		r.fail("anchor NewParams not found")
+		return
+	}
+	isParamsFields := func(m ssa.Value) bool {
+		base, fl, ok := fieldLoad(m)
+		return ok && fl == "Fields" && strings.HasSuffix(typeStr(deref(base.Type())), "Params")
+	}
+	// the defaulting loop: a range over params.Fields whose body stores make+copy of Fields() under len(...) == 0
+	var defHeader ssa.Instruction
+	var defLoop map[*ssa.BasicBlock]bool
+	for _, ld := range findLoops(f) {
+		if ld.kind != "map" || !isParamsFields(ld.src) {
+			continue
+		}
+		for b := range ld.blocks {
+			for _, ins := range b.Instrs {
+				mu, ok := ins.(*ssa.MapUpdate)
+				if !ok || !isParamsFields(mu.Map) {
+					continue
+				}
+				if _, isMake := mu.Value.(*ssa.MakeSlice); !isMake {
+					continue
+				}
+				guarded := false
+				for _, ef := range expandFacts(factsAt(b)) {
+					bo, ok := ef.Cond.(*ssa.BinOp)
+					if !ok || bo.Op != token.EQL || !ef.Truth {
+						continue
+					}
+					if z, ok := constInt(bo.Y); ok && z == 0 {
+						if c, _ := callOf(bo.X); c != nil && builtinName(c.Common()) == "len" {
+							guarded = true
+						}
+					}
+				}
+				if guarded {
+					defHeader = ld.header.Instrs[0]
+					defLoop = ld.blocks
+				}
+			}
+		}
+	}
+	if defHeader == nil {
+		r.bad(prefix+".fields-default", "NewParams:default-loop", p.pos(f.Pos()), "the loop that replaces an empty field selection by all the fields of the type was not found")
+		return
+	}
+	var okRet ssa.Instruction
+	for _, b := range f.Blocks {
+		if ret, ok := b.Instrs[len(b.Instrs)-1].(*ssa.Return); ok && len(ret.Results) == 2 && isNilConst(ret.Results[1]) {
+			okRet = ret
+		}
+	}
+	if okRet == nil {
+		r.fail("NewParams has no successful return")
+		return
+	}
+	n := 0
+	eachInstr(f, func(ins ssa.Instruction) {
+		mu, ok := ins.(*ssa.MapUpdate)
+		if !ok || !isParamsFields(mu.Map) || defLoop[mu.Block()] {
+			return
+		}
+		n++
+		late := reachableAvoiding(mu, okRet, defHeader)
+		r.decide(!late, prefix+".fields-default", "NewParams:"+p.describe(mu), p.pos(mu.Pos()), "the defaulting loop runs after this write on every path to the successful return",
+			"this write to the field selections can happen after (or without) the loop that replaces empty selections by all fields: an empty selection survives, so the type's resources are marshaled without fields and String() prints an empty fields[...] parameter")
+	})
+	r.floor("writes to params.Fields before the defaulting loop", n, 3)
 }
